@@ -39,6 +39,13 @@ def regenerate() -> list[str]:
                        capture_output=True, text=True, timeout=120)
     if r.returncode != 0:
         msgs.append('gen_facts failed: ' + r.stderr[-2000:])
+    # the scheduler core, statement by statement (fail closed inside Coq: GenSchedEq.v)
+    r = subprocess.run(['python3', str(VERIF / 'tools' / 'gen_sched.py'), str(REPO), str(COQ / 'gen' / 'GenSched.v')],
+                       capture_output=True, text=True, timeout=120)
+    if r.returncode != 0:
+        msgs.append('gen_sched failed: ' + r.stderr[-2000:])
+    # (source the translator does not recognise is not reported here: GenSched.v then has no definitions and the
+    #  property files that state the tie - C01 C02 C09 C10 - do not build, the others are not concerned)
     return msgs
 
 
